@@ -46,7 +46,7 @@ def cadence(seed, n):
     return _mk("cadence", "hc", gen_hc.cadence_case, n, seed * 101 + 20)
 
 def hostile(seed, n):
-    return _mk("hostile", "hc", gen_hc.hostile_case, n, seed * 101 + 6)
+    return _mk("hostile", "hc", lambda r: gen_hc.hoard_case(r) if r.random() < 0.12 else gen_hc.hostile_case(r), n, seed * 101 + 6)
 
 def tx(seed, n):
     return _mk("tx", "hc", gen_hc.tx_case, n, seed * 101 + 7)
@@ -56,6 +56,9 @@ def rate(seed, n):
 
 def twin(seed, n):
     return _mk("twin", "hc", gen_hc.twin_case, n, seed * 101 + 9)
+
+def mixack(seed, n):
+    return _mk("mixack", "hc", gen_hc.mixack_case, n, seed * 101 + 21)
 
 def reuse(seed, n):
     return _mk("reuse", "hc", gen_hc.reuse_case, n, seed * 101 + 10)
